@@ -2,6 +2,7 @@
    Property theorems only; proofs are in Proofs/SchemaBuild.v, SchemaRefute.v, SchemaTop.v. *)
 Require Import IP.Base.Bytes IP.DM.Value IP.Schema.Types IP.Schema.View IP.Schema.Conform IP.Schema.Sem
   IP.Proofs.SchemaBuild IP.Proofs.SchemaShape IP.Proofs.SchemaRefute IP.Proofs.SchemaTop.
+Require Import IP.Codec.Cbor IP.Codec.CborSpec IP.Proofs.CborDec IP.Proofs.CborSound IP.Proofs.CborComplete IP.Proofs.SchemaCborAccept.
 
 (* every strategy, both levels, both engines, leniencies off: accepted <-> conforms, same value *)
 Theorem C09_accept_iff : forall e t d v, (e = Bind \/ e = Gen) -> wf t = true ->
@@ -76,3 +77,35 @@ Theorem C09_refuted_nullable_sum_panic :
   rbuild Bind pinned tNL (DList [DInt 1; DNull]) = BPanic.
 Proof. exact refuted_nullable_sum_panic. Qed.
 Print Assumptions C09_refuted_nullable_sum_panic.
+
+(* through the codec: a typed builder fed by the strict dag-cbor decoder (repaired tree, links allowed,
+   whole input consumed) accepts exactly the byte strings that are one well-formed DAG-CBOR item ([chk],
+   Codec/CborSpec.v) denoting a tree within the decoder's limits that conforms to the type — and builds
+   the value that tree denotes.  Composition of C03's decode_iff with C09_accept_iff. *)
+Theorem C09_bytes_accept_iff : forall e o t bs v,
+  (e = Bind \/ e = Gen) -> wf t = true -> strict_dagcbor o -> wfb bs ->
+  ((exists d, decode o bs = Ok (d, []) /\ rbuild e qoff t d = BOk v) <->
+   (exists d, chk true true true d bs = Some [] /\ fits o d /\ conforms_r t d = Some v)).
+Proof. exact bytes_accept_iff. Qed.
+Print Assumptions C09_bytes_accept_iff.
+
+Theorem C09_bytes_built_in_type : forall e o t bs d v,
+  (e = Bind \/ e = Gen) -> wf t = true ->
+  decode o bs = Ok (d, []) -> rbuild e qoff t d = BOk v -> has_shape t v = true.
+Proof. exact bytes_built_in_type. Qed.
+Print Assumptions C09_bytes_built_in_type.
+
+Theorem C09_bytes_no_panic : forall e o t bs d,
+  (e = Bind \/ e = Gen) -> wf t = true -> decode o bs = Ok (d, []) -> rbuild e qoff t d <> BPanic.
+Proof. exact bytes_no_panic. Qed.
+Print Assumptions C09_bytes_no_panic.
+
+(* satisfiable, both sides inhabited: {"c":null,"x":1} into struct {a Int (rename "x"), b optional nullable
+   String, c nullable Int, d optional String} *)
+Theorem C09_bytes_example :
+  strict_dagcbor ex_opts /\ wfb ex_bytes /\ wf tSM = true /\
+  decode ex_opts ex_bytes = Ok (DMap [(sc, DNull); (sx, DInt 1)], []) /\
+  rbuild Bind qoff tSM (DMap [(sc, DNull); (sx, DInt 1)]) = BOk (VStruct [MVal (VInt 1); MAbsent; MNull; MAbsent]) /\
+  chk true true true (DMap [(sc, DNull); (sx, DInt 1)]) ex_bytes = Some [].
+Proof. exact bytes_accept_example. Qed.
+Print Assumptions C09_bytes_example.
